@@ -333,6 +333,19 @@ static void blk_zuc(void) {
 		if (z[0] != KAT[i].z1 || z[1] != KAT[i].z2) vh_viol("C04:zuc:kat", "\"set\":%d,\"z1\":\"%08x\",\"z2\":\"%08x\"", i + 1, z[0], z[1]); }
 	{ if (vh_next()) { static const uint8_t key[16] = { 0x3d,0x4c,0x4b,0xe9,0x6a,0x82,0xfd,0xae,0xb5,0x8f,0x64,0x1d,0xb1,0x7b,0x45,0x5b }, iv[16] = { 0x84,0x31,0x9a,0xa8,0xde,0x69,0x15,0xca,0x1f,0x6b,0xda,0x6b,0xfb,0xd8,0xc7,0x66 };
 		ZUC_STATE st; zuc_init(&st, key, iv); uint32_t z[2]; zuc_generate_keystream(&st, 2, z); vh_eval(3); if (z[0] != 0x14f1c272 || z[1] != 0x3279c419) vh_viol("C04:zuc:kat", "\"set\":3,\"z1\":\"%08x\",\"z2\":\"%08x\"", z[0], z[1]); } }
+	/* specification test set 4 with the 2000th word: the only published known answer far into the keystream */
+	if (vh_next()) { static const uint8_t key[16] = { 0x4d,0x32,0x0b,0xfa,0xd4,0xc2,0x85,0xbf,0xd6,0xb8,0xbd,0x00,0xf3,0x9d,0x8b,0x41 }, iv[16] = { 0x52,0x95,0x9d,0xab,0xa0,0xbf,0x17,0x6e,0xce,0x2d,0xc3,0x15,0x04,0x9e,0xb5,0x74 };
+		ZUC_STATE a, b, c; zuc_init(&a, key, iv); zuc_init(&b, key, iv); zuc_init(&c, key, iv); static uint32_t ks[2000]; zuc_generate_keystream(&a, 2000, ks); uint32_t w = 0, w1 = 0, w2 = 0; for (int i = 1; i <= 2000; i++) { w = zuc_generate_keyword(&b); if (i == 1) w1 = w; if (i == 2) w2 = w; } static uint8_t zero[8000], out[8000]; zuc_encrypt(&c, zero, 8000, out); uint32_t e2000 = ((uint32_t)out[7996] << 24) | (out[7997] << 16) | (out[7998] << 8) | out[7999];
+		vh_eval(4); if (w1 != 0xed4400e7 || w2 != 0x0633e5c5 || w != 0x7a574cdb || ks[0] != 0xed4400e7 || ks[1999] != 0x7a574cdb || e2000 != 0x7a574cdb) vh_viol("C04:zuc:kat", "\"set\":4,\"z1\":\"%08x\",\"z2000_keyword\":\"%08x\",\"z2000_keystream\":\"%08x\",\"z2000_encrypt\":\"%08x\"", w1, w, ks[1999], e2000); }
+	/* long runs: the three keystream routes (word by word, bulk, byte encryptor one-shot and streaming in odd chunks) must agree over 2^16 words
+	   (a lost reduction in one copy of the LFSR step shows about once per 1300 words) */
+	for (int k = 0; k < 3; k++) { if (!vh_next()) continue; enum { NW = 65536 }; static uint32_t wa[NW], wb[NW]; static uint8_t zb[4 * NW], ob[4 * NW], sb[4 * NW + 64]; ZUC_STATE a, b, c; zuc_init(&a, KEYS[k], IVS[k]); zuc_init(&b, KEYS[k], IVS[k]); zuc_init(&c, KEYS[k], IVS[k]);
+		zuc_generate_keystream(&a, NW, wa); for (size_t i = 0; i < NW; i++) wb[i] = zuc_generate_keyword(&b); memset(zb, 0, sizeof zb); zuc_encrypt(&c, zb, sizeof zb, ob); vh_eval(vh_mix(9100 + k));
+		size_t bad1 = NW, bad2 = NW; for (size_t i = 0; i < NW; i++) { if (wa[i] != wb[i] && bad1 == NW) bad1 = i; uint32_t e = ((uint32_t)ob[4 * i] << 24) | (ob[4 * i + 1] << 16) | (ob[4 * i + 2] << 8) | ob[4 * i + 3]; if (e != wb[i] && bad2 == NW) bad2 = i; }
+		if (bad1 != NW) vh_viol("C04:zuc:long-run:keystream-vs-keyword", "\"key\":%d,\"first_bad_word\":%zu", k, bad1); if (bad2 != NW) vh_viol("C04:zuc:long-run:encrypt-vs-keyword", "\"key\":%d,\"first_bad_word\":%zu", k, bad2);
+		ZUC_CTX zc; zuc_encrypt_init(&zc, KEYS[k], IVS[k]); size_t pos = 0, op = 0, ol = 0; static const size_t CH[] = { 1, 3, 4, 5, 63, 64, 65, 1000, 4099 }; int ci = 0; int okc = 1; while (pos < sizeof zb) { size_t n = CH[ci++ % 9]; if (n > sizeof zb - pos) n = sizeof zb - pos; if (zuc_encrypt_update(&zc, zb + pos, n, sb + op, &ol) != 1) { okc = 0; break; } op += ol; pos += n; } if (okc && zuc_encrypt_finish(&zc, sb + op, &ol) == 1) op += ol; else okc = 0;
+		if (!okc || op != sizeof zb || memcmp(sb, ob, sizeof zb)) { size_t fb = 0; while (fb < sizeof zb && sb[fb] == ob[fb]) fb++; vh_viol("C04:zuc:long-run:streaming-vs-oneshot", "\"key\":%d,\"ok\":%d,\"outlen\":%zu,\"first_bad_byte\":%zu", k, okc, op, fb); }
+		ZUC256_STATE d, e; uint8_t k256[32], iv256[23]; memcpy(k256, KEYS[k], 32); memcpy(iv256, PT + 40 + k, 23); for (int i = 17; i < 23; i++) iv256[i] &= 0x3f; zuc256_init(&d, k256, iv256); zuc256_init(&e, k256, iv256); zuc256_generate_keystream(&d, NW, wa); for (size_t i = 0; i < NW; i++) wb[i] = zuc256_generate_keyword(&e); size_t bad3 = NW; for (size_t i = 0; i < NW; i++) if (wa[i] != wb[i]) { bad3 = i; break; } if (bad3 != NW) vh_viol("C04:zuc256:long-run:keystream-vs-keyword", "\"key\":%d,\"first_bad_word\":%zu", k, bad3); }
 	/* structure: keystream(n) == n x keyword; zuc_encrypt == xor with big-endian keystream for every length; EEA3/EIA3 framing from the bit-level definition */
 	for (int k = 0; k < 3; k++) for (size_t nw = 0; nw <= 40; nw++) {
 		if (!vh_next()) continue;
